@@ -160,7 +160,7 @@ def apply_rule(rule, doc, src, q):
     elif kind == 'host_missing':
         del HC[list(HC)[-1]]
     elif kind == 'host_superfluous':
-        HC['(1, 9)'] = copy.deepcopy(HC[_first(HC)])
+        HC['(1, %d)' % (doc[u.SUBNETS][0] + 5)] = copy.deepcopy(HC[_first(HC)])     # a host that does not exist
     elif kind == 'host_unknown_service':
         HC[_first(HC)][u.HOST_SERVICES] = list(HC[_first(HC)][u.HOST_SERVICES]) + ['no_such_service']
     elif kind == 'host_duplicate_service':
